@@ -151,10 +151,20 @@ pub fn gen_case(ch: &mut Choices, p: &Profile) -> SimCase {
                     actions.push(all(1));
                 }
                 0 => {
-                    // a certificate forms with few correct voters, is shown to one node, the rest times out and moves on
+                    // (optionally a few plain view changes first, so that the choreography meets different leaders)
+                    for _ in 0..ch.below(4) {
+                        actions.push(Action::Timeout { mask: u16::MAX });
+                        actions.push(all(2));
+                    }
+                    // a certificate forms with few correct voters, is shown to one node, the rest times out and moves on;
+                    // a Byzantine leader of the next view then tries both a legitimate and a smuggled proposal, in either order
                     actions.push(Action::HideQc { voters: ch.pick(&[3u8, 4, 4, 5, 2]), reveal: 1 << ch.below(6), lie: ch.below(5) as u8 });
                     if ch.bool() {
-                        actions.push(Action::Equivocate { to_a: u16::MAX, to_b: ch.raw() });
+                        let (a, b) = (if ch.bool() { u16::MAX } else { ch.raw() }, if ch.bool() { u16::MAX } else { ch.raw() });
+                        actions.push(Action::Equivocate { to_a: a, to_b: b });
+                        if ch.bool() {
+                            actions.push(Action::Equivocate { to_a: b, to_b: a });
+                        }
                     }
                     actions.push(all(2));
                     actions.push(Action::Complete { reveal: u16::MAX, alt_order: false });
@@ -179,6 +189,19 @@ pub fn gen_case(ch: &mut Choices, p: &Profile) -> SimCase {
                     actions.push(all(2));
                 }
             }
+            continue;
+        }
+        if p.variants && ch.chance(1, 8) {
+            // the leaders propose but nothing is delivered yet; a copy of the newest message (normally that proposal) re-signed by
+            // somebody else / carrying another signature reaches a node before the original does
+            actions.push(all(1));
+            if ch.bool() {
+                actions.push(Action::Timeout { mask: u16::MAX });
+                actions.push(all(2));
+            }
+            actions.push(Action::Flush { mask: u16::MAX, kinds: 0, limit: 0, rounds: 1 });
+            actions.push(Action::Variant { msg: u16::MAX, to: ch.raw(), kind: ch.pick(&[0u8, 0, 1, 2]), arg: ch.below(6) as u8 });
+            actions.push(all(1));
             continue;
         }
         let a = match ch.below(40) {
